@@ -442,6 +442,9 @@ impl<T: Elem, V: Vecish<T>> Runner<T, V> {
         s += &format!(" rl={} hr={} ch={}", v.region_len_(), hr, self.listing());
         s
     }
+    fn changes_size(&self) -> usize {
+        std::fs::read_dir(self.changes_dir()).map(|rd| rd.flatten().map(|e| e.metadata().map_or(0, |m| m.len() as usize)).sum()).unwrap_or(0)
+    }
     fn exec(&mut self, op: &Op) -> Res {
         use Op::*;
         let r = catch_unwind(AssertUnwindSafe(|| -> Res {
@@ -643,7 +646,20 @@ impl<T: Elem, V: Vecish<T>> Runner<T, V> {
     fn step(&mut self, op: &Op) {
         if self.dead { return; }
         let pre = PreState::of(self);
+        // C17: decoding a damaged change record neither panics nor allocates beyond the size of its input
+        let decode_of_damaged = matches!(op, Op::Rollback | Op::RollbackBefore(_)) && self.refv.taint == Some("fault");
+        let input_size = if decode_of_damaged { self.changes_size() + self.vec.as_ref().map_or(0, |v| v.region_len_()) } else { 0 };
+        if decode_of_damaged { crate::allocwatch::reset(); }
         let r = self.exec(op);
+        if decode_of_damaged {
+            let req = crate::allocwatch::max();
+            if r == Res::Panic { self.viol.push(format!("C17:decode-of-damaged-change-record-panics in {} at step {}", op.name(), self.nstep)); }
+            if req > 8 * input_size + (1 << 20) {
+                self.viol.push(format!("C17:decode-of-damaged-change-record-allocates-beyond-input in {} at step {}: one request of {} bytes, change files + region = {} bytes",
+                                       op.name(), self.nstep, req, input_size));
+            }
+            self.tags.push(format!("decode-alloc:{}", if req <= input_size { "<=input" } else if req <= 8 * input_size + (1 << 20) { "<=8x+1M" } else { "BEYOND" }));
+        }
         if self.dead { self.out.push(format!("{} {} r={} dead", self.nstep, op.tok(), r.show())); self.nstep += 1; return; }
         let line = self.observe(&op.tok(), &r);
         self.out.push(line);
@@ -706,9 +722,13 @@ impl PreState {
     }
 }
 
+fn input_line(cfg: &Cfg, ops: &[Op]) -> String {
+    format!("fmt={} ty={} k={}{} {}", cfg.fmt, cfg.ty, cfg.k, if cfg.big { " big=1" } else { "" }, ops.iter().map(|o| o.tok()).collect::<Vec<_>>().join(" "))
+}
+
 fn emit<T: Elem, V: Vecish<T>>(id: &str, cfg: &Cfg, ops: &[Op], r: Runner<T, V>) {
     let mut s = String::new();
-    s += &format!("I {} fmt={} ty={} k={}{} {}\n", id, cfg.fmt, cfg.ty, cfg.k, if cfg.big { " big=1" } else { "" }, ops.iter().map(|o| o.tok()).collect::<Vec<_>>().join(" "));
+    s += &format!("I {} {}\n", id, input_line(cfg, ops));
     for o in &r.out { s += &format!("O {} {}\n", id, o); }
     for v in &r.viol { s += &format!("V {} {}\n", id, v); }
     let mut tags = r.tags.clone(); tags.sort(); tags.dedup();
@@ -717,6 +737,7 @@ fn emit<T: Elem, V: Vecish<T>>(id: &str, cfg: &Cfg, ops: &[Op], r: Runner<T, V>)
 }
 
 fn replay_case<T: Elem, V: Vecish<T>>(id: &str, cfg: &Cfg, ops: &[Op]) {
+    util::running(id, &input_line(cfg, ops));
     let mut r = Runner::<T, V>::new(cfg.k);
     r.big = cfg.big;
     for o in ops { r.step(o); }
